@@ -58,6 +58,8 @@ RESP_BODIES = {
     "binary": (bytes(range(256)) + b"\x00\x01\x02\xff" * 8, [("Content-Type", "application/octet-stream")]),
     # mostly non-printable bytes: exported base64-encoded (strutils.is_mostly_bin)
     "binary-base64": (b"\x89PNG\r\n\x1a\n\x00\x00\x00\rIHDR" + b"\x00\x01\x02\x03\xff\xfe\x80\x90" * 20, [("Content-Type", "image/png")]),
+    # text-like body (mostly printable, so exported as text, not base64) with bytes that are invalid in the declared charset
+    "text-with-invalid-bytes": (b"<p>price: \xa3 9.99, mostly printable text with a stray \xff byte in a utf-8 page</p>\n", [("Content-Type", "text/html; charset=utf-8")]),
     "gzip-coded": ("compressed t\u00e9xt body\n".encode() * 3, [("Content-Type", "text/plain; charset=utf-8"), ("Content-Encoding", "gzip")]),
     "br-coded": ("brotli t\u00e9xt body\n".encode() * 3, [("Content-Type", "application/json"), ("Content-Encoding", "br")]),
 }
